@@ -70,6 +70,10 @@ def main():
                 ctx.extra["coqchk_axioms"] = sorted(axs)
                 ctx.extra["coqchk_s"] = round(dt, 1)
                 ctx.oblige(rc == 0, "audit", "coqchk re-check", out[-3000:])
+        fpath = os.path.join(H.COQ, "props", f"{pid}_findings.v")
+        if build_ok and os.path.exists(fpath):
+            okf, outf, _, _ = H.make([f"props/{pid}_findings.vo"], 600)
+            ctx.extra["findings_file_compiles"] = okf  # informational: a repaired defect makes a _refuted lemma fail
     # 4. correspondence between model and implementation
     if regen_ok:
         try:
